@@ -9,6 +9,7 @@ from .c06 import _strip
 from .c01 import _fold_rep
 from sa.layout import Layout
 from sa.decide import Walker, cmp_parts
+from sa.canon import fold_consts
 
 TECHNIQUE = ("hash-stream canonical form of the hash computation, operation-indexed decision walk of signapp, no-skip path rule of the signing loop, provenance expansion and of every value written to disk, "
              "taint-style confinement of the one-time key (which calls may receive it), module-state and "
@@ -83,8 +84,11 @@ def run(run):
     # `message` (and every operation without an existing authorization file) describes the image given on the command line
     ops = ["hash", "message", "key", "eth", "manual"]
     fresh = _strip("SignerAuthorization.for_signer_version(SignerVersion(compute_app_hash(options.app_path).hex(), options.iteration))")
+    sm_locals = set(PV.defs(sm, None)) | set(sm.params)
     for op in ("message",):
         def atom(e, op=op):
+            # named operation constants (module level) count as the literals they stand for
+            e = fold_consts(P, e, sm, None, locals_=sm_locals)
             cp = cmp_parts(e)
             if cp is None:
                 return None
@@ -212,7 +216,8 @@ def run(run):
             got = {_strip(x) for x in PV.expand_consistent(so, None, c.args[0], cn, stop=STOP)}
             run.check("R3", got == {_strip(f"compute_app_hash({app})")}, "signs the hash of the current app", key="signonetime|signed-digest",
                       where=so.loc(c), message=f"the signed digest is {sorted(got)[:1]}, expected compute_app_hash of the app being processed")
-            run.check("R3", any(k.arg == "sigencode" and norm(k.value) == "ecdsa.util.sigencode_der" for k in c.keywords), "DER signature",
+            run.check("R3", any(k.arg == "sigencode" and {_strip(x) for x in PV.expand_consistent(so, None, k.value, cn, stop=STOP)} == {"ecdsa.util.sigencode_der"}
+                                for k in c.keywords), "DER signature",
                       key="signonetime|der", where=so.loc(c), message="the signature is not DER-encoded")
     opens = [n for n in A.own_nodes(so) if isinstance(n, ast.Call) and call_name(n) == "open"]
     withs = [n for n in A.own_nodes(so) if isinstance(n, ast.With)]
